@@ -119,8 +119,8 @@ Theorem C15_settlement : forall K, NoDup (map poolkey_code K) -> forall SO s1 s2
   legacy_net s1 && (s_height s1 <? 978392) = false ->
   (forall t k, In t (sorted_txs s1) -> tx_pool t = Some k -> In k K /\ LDk SO k <> fst k /\ LDk SO k <> snd k) ->
   NoDup (key_pairs (sorted_txs s1)) ->
-  (forall t c, In t (sorted_txs s1) -> s_coins s1 !! key0 t = Some c -> as_declared c (out0 t)) ->
-  (forall t c, In t (sorted_txs s1) -> s_coins s1 !! key1 t = Some c -> as_declared c (out1 t)) ->
+  (forall t c, In t (sorted_txs s1) -> s_coins s1 !! key0 t = Some c -> as_declared t c (out0 t)) ->
+  (forall t c, In t (sorted_txs s1) -> s_coins s1 !! key1 t = Some c -> as_declared t c (out1 t)) ->
   nsum (map (fun t => cd_value (out0 t)) (sorted_txs s1)) < U128 ->
   nsum (map (fun t => cd_value (out1 t)) (sorted_txs s1)) < U128 ->
   (forall k p'' m, In k K ->
